@@ -189,6 +189,8 @@ def _simple(e: ast.AST) -> bool:
         return _simple(e.value) and _simple(e.slice)
     if isinstance(e, ast.UnaryOp) and isinstance(e.op, ast.USub):
         return _simple(e.operand)
+    if isinstance(e, ast.Call) and isinstance(e.func, ast.Name) and e.func.id == "getattr" and len(e.args) == 2 and not e.keywords:
+        return _simple(e.args[0]) and _simple(e.args[1])        # an attribute read under a computed name
     return False
 
 
@@ -925,9 +927,56 @@ class _MapOverDisplay(ast.NodeTransformer):
         return node
 
 
+def _desugar_count_iterators(fn: ast.AST) -> int:
+    """`it = itertools.count(a)` whose only uses are statements `v = next(it)` is the counter `it = a` with `v = it; it += 1`
+    (the same values in the same order; anything else - a step, `next` inside an expression, the iterator passed on - is left alone)."""
+    n = 0
+    defs = [st for st in ast.walk(fn) if isinstance(st, ast.Assign) and len(st.targets) == 1 and isinstance(st.targets[0], ast.Name)
+            and isinstance(st.value, ast.Call) and not st.value.keywords and len(st.value.args) <= 1
+            and ((isinstance(st.value.func, ast.Attribute) and st.value.func.attr == "count" and isinstance(st.value.func.value, ast.Name) and st.value.func.value.id == "itertools")
+                 or (isinstance(st.value.func, ast.Name) and st.value.func.id == "count"))]
+    for d in defs:
+        name = d.targets[0].id
+        if sum(1 for st in ast.walk(fn) if isinstance(st, (ast.Assign, ast.AugAssign, ast.For, ast.With, ast.NamedExpr))
+               for t in ast.walk(st.targets[0] if isinstance(st, ast.Assign) else getattr(st, "target", st))
+               if isinstance(t, ast.Name) and t.id == name and isinstance(t.ctx, ast.Store)) != 1:
+            continue
+        loads = [x for x in ast.walk(fn) if isinstance(x, ast.Name) and x.id == name and isinstance(x.ctx, ast.Load)]
+        sites = []
+        ok = True
+
+        def find(block):
+            nonlocal ok
+            for i, st in enumerate(block):
+                if isinstance(st, ast.Assign) and len(st.targets) == 1 and isinstance(st.targets[0], ast.Name) and isinstance(st.value, ast.Call) \
+                        and isinstance(st.value.func, ast.Name) and st.value.func.id == "next" and len(st.value.args) == 1 and not st.value.keywords \
+                        and isinstance(st.value.args[0], ast.Name) and st.value.args[0].id == name:
+                    sites.append((block, i, st))
+                for fld in ("body", "orelse", "finalbody"):
+                    sub = getattr(st, fld, None)
+                    if isinstance(sub, list) and sub and isinstance(sub[0], ast.stmt):
+                        find(sub)
+                for hd in getattr(st, "handlers", []) or []:
+                    find(hd.body)
+        find(fn.body)
+        if len(sites) != len(loads) or not sites:
+            continue
+        for block, i, st in sorted(sites, key=lambda x: -x[1]):
+            inc = ast.copy_location(ast.AugAssign(target=ast.Name(id=name, ctx=ast.Store()), op=ast.Add(), value=ast.Constant(value=1)), st)
+            st.value = ast.copy_location(ast.Name(id=name, ctx=ast.Load()), st.value)
+            block.insert(block.index(st) + 1, inc)
+        d.value = ast.copy_location(d.value.args[0] if d.value.args else ast.Constant(value=0), d.value)
+        n += 1
+    return n
+
+
 def desugar_match(trees: Dict[str, ast.Module]) -> int:
     n = 0
     for tree in trees.values():
+        if any(isinstance(x, ast.Attribute) and x.attr == "count" and isinstance(x.value, ast.Name) and x.value.id == "itertools" for x in ast.walk(tree)):
+            for fn in [x for x in ast.walk(tree) if isinstance(x, (ast.FunctionDef, ast.AsyncFunctionDef))]:
+                if _desugar_count_iterators(fn):
+                    ast.fix_missing_locations(tree)
         if any(isinstance(x, ast.Call) and isinstance(x.func, ast.Name) and x.func.id == "map" for x in ast.walk(tree)):
             _MapOverDisplay().visit(tree)
         if any(isinstance(x, ast.Match) for x in ast.walk(tree)):
